@@ -304,3 +304,22 @@ Example iterator_complete_nonvacuous :
                protocol [] [[]; [3]; []; []; []; []] outs /\ In [] outs /\
                In [4] outs /\ In [1; 4] outs /\ In [2; 4] outs /\ In [1; 2; 4] outs.
 Proof. eexists. split; [vm_compute; reflexivity|]. simpl. intuition. Qed.
+
+(* non-vacuity, JSON-LD contexts: two credentials carry the same type term 2; under context 1 it is IRI 2, under
+   context 2 it is IRI 12.  A descriptor whose schema names IRI 12 takes the second credential only, whatever the
+   order of the holder's list, and Match accepts. *)
+Example contexts_nonvacuous :
+  let cr (id ctx : N) := {| c_id := id; c_issuer := 50; c_subject := 60; c_ctx := ctx; c_types := [1; 2]; c_proofs := []; c_jwt := 0;
+                            c_sd := false; c_rawsubj := false; c_attrs := [(1, VNum (Z.of_N id))] |} in
+  let d := {| d_id := 1; d_groups := []; d_schema := [(12, false)]; d_constraints := None; d_format := None |} in
+  let p := {| p_format := None; p_reqs := []; p_descs := [d] |} in
+  (exists x, create_vp Fixed p [cr 1 1; cr 2 2] = COk x /\ map c_id (vp_creds x) = [2] /\
+             exists l, verifier_match Fixed p false x = MOk l) /\
+  (exists x, create_vp Fixed p [cr 2 2; cr 1 1] = COk x /\ map c_id (vp_creds x) = [2]) /\
+  create_vp Fixed p [cr 1 1] = CNoCreds.
+Proof.
+  cbv zeta. split; [|split].
+  - eexists. split; [vm_compute; reflexivity|]. split; [reflexivity|]. eexists. vm_compute. reflexivity.
+  - eexists. split; [vm_compute; reflexivity|]. reflexivity.
+  - vm_compute. reflexivity.
+Qed.
